@@ -236,7 +236,7 @@ def element_parsing(
                 )
             else:
                 quarter_duration = 4 / total_duration_values[i]
-                duration_divs = ceil(quarter_duration * divs_pq)
+                duration_divs = int(round(quarter_duration * divs_pq))
             el_end = current_tl_pos + duration_divs
             part.add(element, start=current_tl_pos, end=el_end)
             line2pos[doc_lines[i]] = current_tl_pos
@@ -245,7 +245,7 @@ def element_parsing(
         # Handle chords
         elif isinstance(element, tuple):
             quarter_duration = 4 / total_duration_values[i]
-            duration_divs = ceil(quarter_duration * divs_pq)
+            duration_divs = int(round(quarter_duration * divs_pq))
             el_end = current_tl_pos + duration_divs
             for note in element[1]:
                 part.add(note, start=current_tl_pos, end=el_end)
